@@ -610,6 +610,14 @@ func one(r *vk.Run, c Case, kind, n, step int, prog []model.Node, src string, ex
 			}
 		}
 	}
+	// clob(xs, i) overwrites every element / entry of the collection it is given, in place: an element is what
+	// the collection holds when its turn comes (a slice is read by index, a map entry by key)
+	pdata["clob"] = func(x interface{}, i int) interface{} {
+		if clobberable(ik) {
+			clobber(reflect.ValueOf(x), i)
+		}
+		return nil
+	}
 	var ctx hctx.Context = model.Context(pdata, shared)
 	if c.Ctx == "wrapped" {
 		ctx = wrapCtx{ctx.(*plush.Context)}
@@ -674,6 +682,22 @@ func one(r *vk.Run, c Case, kind, n, step int, prog []model.Node, src string, ex
 	for k, v := range modelOnly {
 		helpers[k] = v
 	}
+	helpers["clob"] = func(a []interface{}) (interface{}, error) {
+		if !clobberable(ik) {
+			return nil, nil
+		}
+		switch t := a[0].(type) {
+		case []interface{}:
+			for j := range t {
+				t[j] = clobbered(t[j], a[1].(int))
+			}
+		case *model.OrderedMap:
+			for _, k := range t.Keys {
+				t.Vals[k] = clobbered(t.Vals[k], a[1].(int))
+			}
+		}
+		return nil, nil
+	}
 	want := model.Run(prog, mdata, helpers)
 	if want.Unspec != "" {
 		r.Exclude("unspecified")
@@ -709,7 +733,11 @@ func one(r *vk.Run, c Case, kind, n, step int, prog []model.Node, src string, ex
 				for k, v := range mdata {
 					md[k] = v
 				}
-				md["xs"] = &model.OrderedMap{Keys: order, Vals: om.Vals}
+				vals := map[interface{}]interface{}{}
+				for k, v := range om.Vals {
+					vals[k] = v
+				}
+				md["xs"] = &model.OrderedMap{Keys: order, Vals: vals}
 				w := model.Run(prog, md, helpers)
 				failing = w.Err != "" || w.Unspec != ""
 				return !failing
@@ -725,6 +753,54 @@ func one(r *vk.Run, c Case, kind, n, step int, prog []model.Node, src string, ex
 		return fail("output %q, reference says %q", res.Out, want.Out)
 	}
 	return nil
+}
+
+// clobbered is what clob(xs, i) leaves in place of the element old: a value of the same kind that no collection holds.
+func clobbered(old interface{}, i int) interface{} {
+	switch old.(type) {
+	case int:
+		return 7000 + i
+	case string:
+		return fmt.Sprintf("Z%d", i)
+	}
+	return old
+}
+
+func clobber(rv reflect.Value, i int) {
+	for rv.Kind() == reflect.Ptr && !rv.IsNil() {
+		rv = rv.Elem()
+	}
+	put := func(old reflect.Value) (reflect.Value, bool) {
+		if !old.CanInterface() {
+			return old, false
+		}
+		nv := reflect.ValueOf(clobbered(old.Interface(), i))
+		if nv.IsValid() && nv.Type().ConvertibleTo(old.Type()) && (old.Kind() == reflect.Interface || nv.Kind() == old.Kind()) {
+			return nv.Convert(old.Type()), true
+		}
+		return old, false
+	}
+	switch rv.Kind() {
+	case reflect.Slice:
+		for j := 0; j < rv.Len(); j++ {
+			if nv, ok := put(rv.Index(j)); ok {
+				rv.Index(j).Set(nv)
+			}
+		}
+	case reflect.Map:
+		for _, k := range rv.MapKeys() {
+			if nv, ok := put(rv.MapIndex(k)); ok {
+				rv.SetMapIndex(k, nv)
+			}
+		}
+	}
+}
+
+// clobberable: the kinds whose elements clob() can overwrite so that the model sees the same (the loop head names the
+// variable xs, the elements are ints or strings that the bodies print, iterations are not told apart by value)
+func clobberable(ik iterKind) bool {
+	return ik.build != nil && ik.expr == nil && ik.spell == "" && !ik.byValue && !ik.bad && !ik.empty && !ik.hasNil &&
+		(ik.elem == "int" || ik.elem == "string") && ik.readable() && !strings.Contains(ik.name, "Iterator") && !strings.Contains(ik.name, "[N]")
 }
 
 // permute calls f with every order of keys until f returns false (at most 720 orders: maps have up to 6 entries).
@@ -1235,6 +1311,18 @@ func fixedBodies(ik iterKind, n int) [][]model.Node {
 			[]model.Node{model.Code{S: model.LetS{Name: "f", X: model.FnLit{Params: []string{"a"}, Body: []model.Node{T("("), model.Emit{X: model.Var{Name: "a"}}, T(")")}}}},
 				over(lits, T("i"), model.Emit{X: model.Call{Fn: "f", Args: []model.Expr{rdE}}}), T(",")},
 			[]model.Node{over(lits, T("i"), sif(is2, cnt), T("j")), T(",")},
+		)
+	}
+	if clobberable(ik) {
+		// the body changes the elements the loop has not reached yet (and those it has): the value bound in a later
+		// iteration is the one the collection holds then
+		clob := func(i int) model.Node {
+			return model.Code{S: model.ExprS{X: model.Call{Fn: "clob", Args: []model.Expr{model.Var{Name: "xs"}, model.Lit{V: i}}}}}
+		}
+		out = append(out,
+			[]model.Node{clob(1), v, T(",")},
+			[]model.Node{v, clob(2), T(","), sif(is2, brk)},
+			[]model.Node{sif(is1, clob(3)), v, T(","), sif(isLast, cnt), T(";")},
 		)
 	}
 	if ik.key == "int" && !ik.isMap {
